@@ -76,8 +76,17 @@ pub(crate) fn cast_single_element_fixed_size_list_to_values(
     to: &DataType,
     cast_options: &CastOptions,
 ) -> Result<ArrayRef, ArrowError> {
-    let values = array.as_fixed_size_list().values();
-    cast_with_options(values, to, cast_options)
+    let list = array.as_fixed_size_list();
+    let values = list.values();
+    match list.nulls().filter(|n| n.null_count() > 0) {
+        None => cast_with_options(values, to, cast_options),
+        Some(nulls) => {
+            // a null list is a null value, whatever its child slot holds
+            let indices = UInt64Array::new((0..list.len() as u64).collect(), Some(nulls.clone()));
+            let values = take(values.as_ref(), &indices, None)?;
+            cast_with_options(values.as_ref(), to, cast_options)
+        }
+    }
 }
 
 fn cast_fixed_size_list_to_list_inner<OffsetSize: OffsetSizeTrait, const IS_LIST_VIEW: bool>(
